@@ -12,7 +12,9 @@ struct TriggerComp {
     explicit TriggerComp(const vs::Case& c): tv(!c.cfg.empty() && c.cfg[0] != 0) {}
     long op(int, const std::vector<long>& o)
     {
-        const std::chrono::milliseconds d(10);  // the shim turns the duration into the time-out choice
+        // the shim turns a time-out into a scheduler choice; the optional second number of a wait_for /
+        // wait_forActivation op is the duration handed to the library (0 and negative: the degenerate durations)
+        const std::chrono::milliseconds d(o.size() > 1 ? o[1] : 10);
         switch (o[0]) {
             case 0: return tv.activate() ? 1 : 0;
             case 1: return tv.trigger() ? 1 : 0;
